@@ -54,11 +54,20 @@ def draw_mapping_cfg(rng, W, **force):
         drop = 'not_a_level'
     elif r < 0.4:
         flatten = True
+    elif r < 0.45 and droppable:
+        # both at once is a legal configuration too (the dropped level's marker lists still count for the union)
+        flatten = True
+        drop = rng.choice(droppable)
+    n_iter = rng.choice([1, 2, 3, 5, 9, 15])
+    if rng.random() < 0.04:
+        # rare large counts: past 2**8 votes per (cell, child), and counts whose vote shares k/n sit exactly on a
+        # 4-decimal rounding boundary (n = 32, 160)
+        n_iter = rng.choice([32, 160, 256, 300])
     cfg = {
         'chunk_size': rng.randint(1, n + 3),
         'n_processors': rng.randint(1, 6),
         'n_runners_up': rng.randint(0, 5),
-        'bootstrap_iteration': rng.choice([1, 2, 3, 5, 9, 15]),
+        'bootstrap_iteration': n_iter,
         'bootstrap_factor': rng.choice([1.0, 0.9, 0.7, 0.5, 0.3, 0.05]),
         'min_markers': rng.choice([0, 1, 2, 3, 5, 10]),
         'rng_seed': rng.randrange(2 ** 31),
